@@ -538,9 +538,13 @@ class Accumulator:
             self._running_var = x * 0.0
             self._running_mean = self._running_var + x
         else:
-            self._running_var += ((x - self._running_mean) *
-             ((x - (self._running_mean + (x - self._running_mean) / self._n))))
-            self._running_mean += (x - self._running_mean) / self._n
+            # new arrays rather than in-place updates: what mean() handed
+            # out earlier must not change when more data is pushed
+            self._running_var = self._running_var + (
+                (x - self._running_mean) *
+                (x - (self._running_mean + (x - self._running_mean) / self._n)))
+            self._running_mean = (
+                self._running_mean + (x - self._running_mean) / self._n)
 
     def mean(self):
         return self._running_mean if self._running_mean is not None else 0.0
